@@ -1,82 +1,147 @@
-"""Code -> spec at realistic scale (spec/TraceScale.tla): long histories on structures of hundreds to thousands of cells with
-real string / bytes keys and the library's own hash functions, validated by TLC against a sparse abstract state.
-Serves C01 C02 C04 C08 C09 C10 C14 (clause names carry their property)."""
+"""Code -> spec at realistic scale (spec/TraceScale.tla): long histories on structures of hundreds up to ~10^6 cells with
+thousands of real string / bytes keys and the library's own hash functions, validated by TLC against a sparse abstract state.
+Two families of traces: "long" (one call per event, 100-5000 cells) and "big" (batched additions on structures whose arrays /
+tables cross the 4 KiB, 8 KiB, 64 KiB, 1024-bucket and 65536-slot marks, with reloads, unions, growth steps, nearly full tables).
+Serves C01 C02 C03 C04 C05 C08 C09 C10 C11 C12 C14 C15 (clause names carry their property)."""
+import io
 import json
 import os
 import random as _random
 import shutil
 import struct
 import tempfile
+from decimal import Decimal, getcontext
 
 from ..core import Tally  # noqa: F401
 from .. import tlc
 
 ENGINE = "scale"
-KINDS = ["bloom", "disk", "cbloom", "cms", "ebf", "rbf", "qf"]
-SERVES = {"C01": ["bloom", "disk", "ebf"], "C02": ["cms"], "C04": ["qf"], "C08": ["cbloom"], "C09": ["ebf"], "C10": ["rbf"],
-          "C14": ["bloom", "disk", "cbloom", "cms", "ebf", "rbf", "qf"]}
+KINDS = ["bloom", "disk", "cbloom", "cms", "ebf", "rbf", "qf", "cko", "ccko"]
+SERVES = {"C01": ["bloom", "disk", "ebf"], "C02": ["cms"], "C03": ["cko", "ccko"], "C04": ["qf"], "C05": ["bloom", "disk", "cbloom", "cms", "ebf", "cko", "ccko"],
+          "C08": ["cbloom", "ccko"], "C09": ["ebf"], "C10": ["rbf"], "C11": ["disk"], "C12": ["bloom", "disk"], "C15": ["cko", "ccko"],
+          "C14": ["bloom", "disk", "cbloom", "cms", "ebf", "rbf", "qf", "cko", "ccko"]}
+NOAUX = {"ns": [], "q": 0, "lost": 0, "uniq": 0}
+# "big" configurations: each crosses a block-size mark that a blocked / paged / buffered implementation would care about
+BIG = {
+    "bloom": [(21020, 0.05), (7000, 0.01), (100000, 0.01), (3500, 0.01), (20000, 0.01)],   # 16384 B (= 4 x 4096), 8407 B, 119814 B, 4194 B, 23963 B
+    "disk": [(7000, 0.01), (100000, 0.01), (21020, 0.05), (20000, 0.01)],
+    "cbloom": [(3000, 0.01), (5000, 0.02), (1200, 0.05)],                                    # 28756 / 40712 / 7483 counters
+    "cms": [(20000, 5), (1024, 8), (5000, 4)],
+    "ebf": [(400, 0.01), (1500, 0.05)],
+    "rbf": [],
+    "cko": [(20000, 4, 500, True), (500, 4, 500, False), (1500, 2, 300, False)],           # > 65536 slots; nearly full with max_swaps > 128
+    "ccko": [(1024, 4, 500, True), (500, 4, 500, False), (20000, 4, 500, True)],           # >= 1024 buckets with automatic expansion
+    "qf": [(8, True), (7, False), (8, False), (7, False), (8, False), (7, False), (9, False), (9, True)],   # dense, nearly full tables: long wrapping clusters
+}
 
 
-def mkkeys(rnd, n):
-    out = []
-    words = ["alpha", "beta", "gamma", "delta", "user", "item", "key", "http://example.org/", "über", "中文", "id"]
+def mkkeys(rnd, n, tag=""):
+    out, seen = [], set()
+    words = ["alpha", "beta", "gamma", "delta", "user", "item", "key", "http://example.org/", "über", "中文", "id", "order/", "mailto:"]
     while len(out) < n:
-        w = rnd.choice(words) + str(rnd.randint(0, 10**6))
+        w = rnd.choice(words) + tag + str(rnd.randint(0, 10**9))
         k = w.encode("utf-8") if rnd.random() < 0.3 else w
-        if k not in out:
+        if k not in seen:
+            seen.add(k)
             out.append(k)
     return out
 
 
 def bits_of(data, m):
-    return [i for i in range(m) if (data[i // 8] >> (i % 8)) & 1]
+    out = []
+    for bi in range((m + 7) // 8):
+        b = data[bi]
+        if b:
+            for j in range(8):
+                if (b >> j) & 1 and bi * 8 + j < m:
+                    out.append(bi * 8 + j)
+    return out
 
 
-def record_one(rnd, kind, ti, nev, tmp):
-    import probables as P
-    from probables.hashes import default_md5, fnv_1a_32
+class Rec:
+    """records one trace; harness-level (oracle-free) clauses are collected in self.hfails as (clause, detail)"""
 
-    tr = {"id": ti, "kind": kind, "m": 1, "k": 1, "w": 1, "d": 1, "est": 1, "qmax": 1, "q": 3, "auto": False, "pos": [], "ev": []}
-    hf = rnd.choice([None, None, default_md5])
-    nkeys = rnd.randint(40, 160)
-    keys = mkkeys(rnd, nkeys)
-    path = os.path.join(tmp, f"s{ti}.blm")
-    if kind in ("bloom", "disk", "cbloom"):
-        est, fpr = rnd.choice([(50, 0.05), (200, 0.01), (120, 0.1), (500, 0.02), (33, 0.001)])
-        if kind == "bloom":
-            obj = P.BloomFilter(est_elements=est, false_positive_rate=fpr, hash_function=hf)
-        elif kind == "disk":
-            obj = P.BloomFilterOnDisk(path, est_elements=est, false_positive_rate=fpr, hash_function=hf)
+    def __init__(self, rnd, kind, ti, tmp, big, cfg=None):
+        import probables as P
+
+        self.P, self.rnd, self.kind, self.big, self.tmp = P, rnd, kind, big, tmp
+        self.tr = {"id": ti, "kind": kind, "m": 1, "k": 1, "w": 1, "d": 1, "est": 1, "qmax": 1, "q": 3, "auto": False, "pos": [], "ev": [], "big": big}
+        self.hfails = []
+        self.path = os.path.join(tmp, f"s{ti}.dat")
+        self.hf = None
+        self.fs = 2
+        self.cfg = cfg
+        self.make()
+
+    # -- construction ----------------------------------------------------------------------------
+    def make(self):
+        from probables.hashes import default_md5, fnv_1a, fnv_1a_32
+
+        P, rnd, kind, tr, big = self.P, self.rnd, self.kind, self.tr, self.big
+        self.hf = rnd.choice([None, None, default_md5]) if kind not in ("qf", "cko", "ccko") else None
+        hf = self.hf
+        if kind in ("bloom", "disk", "cbloom"):
+            if big:   # arrays of 4096*k bytes, > 8 KiB, > 64 KiB
+                est, fpr = self.cfg
+            else:
+                est, fpr = rnd.choice([(50, 0.05), (200, 0.01), (120, 0.1), (500, 0.02), (33, 0.001)])
+            self.args = dict(est_elements=est, false_positive_rate=fpr, hash_function=hf)
+            if kind == "bloom":
+                self.obj = P.BloomFilter(**self.args)
+            elif kind == "disk":
+                self.obj = P.BloomFilterOnDisk(self.path, **self.args)
+            else:
+                self.obj = P.CountingBloomFilter(**self.args)
+            m, k = self.obj.number_bits, self.obj.number_hashes
+            tr.update(m=m, k=k, est=est)
+            self.nkeys = min(est, 12000) if big else rnd.randint(40, 160)
+            self.posfn = lambda key: [h % m for h in self.obj.hashes(key)]
+        elif kind == "cms":
+            w, d = self.cfg if big else rnd.choice([(50, 3), (211, 5), (1000, 4), (64, 8)])
+            self.args = dict(width=w, depth=d, hash_function=hf)
+            self.obj = P.CountMinSketch(**self.args)
+            tr.update(w=w, d=d)
+            self.nkeys = 4000 if big else rnd.randint(40, 160)
+            self.posfn = lambda key: [(h % w) + i * w for i, h in enumerate(self.obj.hashes(key))]
+        elif kind in ("ebf", "rbf"):
+            est, fpr = self.cfg if big else rnd.choice([(8, 0.05), (20, 0.05), (13, 0.01), (30, 0.1)])
+            qmax = rnd.randint(2, 5)
+            self.args = dict(est_elements=est, false_positive_rate=fpr, hash_function=hf)
+            self.obj = P.ExpandingBloomFilter(**self.args) if kind == "ebf" else P.RotatingBloomFilter(max_queue_size=qmax, **self.args)
+            probe = P.BloomFilter(**self.args)
+            m, k = probe.number_bits, probe.number_hashes
+            tr.update(m=m, k=k, est=est, qmax=qmax)
+            self.nkeys = est * 6 if big else rnd.randint(40, 160)
+            self.posfn = lambda key: [h % m for h in probe.hashes(key)]
+        elif kind in ("cko", "ccko"):
+            cls = P.CuckooFilter if kind == "cko" else P.CountingCuckooFilter
+            if big:
+                cap, bs, ms, auto = self.cfg
+            else:
+                cap, bs, ms, auto = rnd.choice([(16, 2, 20, True), (64, 4, 50, False), (10, 3, 30, True)])
+            self.fs = rnd.choice([2, 3])
+            self.obj = cls(capacity=cap, bucket_size=bs, max_swaps=ms, auto_expand=auto, finger_size=self.fs)
+            tr.update(m=cap, k=bs, auto=auto)
+            if big:
+                self.nkeys = {20000: 45000, 500: 2100, 1024: 16000, 1500: 3100}[cap]
+            else:
+                self.nkeys = rnd.randint(30, 120)
+            mask = (1 << (8 * self.fs)) - 1
+            self.posfn = lambda key: [(fnv_1a(key) & mask) or 1]
         else:
-            obj = P.CountingBloomFilter(est_elements=est, false_positive_rate=fpr, hash_function=hf)
-        m, k = obj.number_bits, obj.number_hashes
-        tr.update(m=m, k=k, est=est)
-        tr["pos"] = [[h % m for h in obj.hashes(key)] for key in keys]
-    elif kind == "cms":
-        w, d = rnd.choice([(50, 3), (211, 5), (1000, 4), (64, 8)])
-        obj = P.CountMinSketch(width=w, depth=d, hash_function=hf)
-        tr.update(w=w, d=d)
-        tr["pos"] = [[(h % w) + i * w for i, h in enumerate(obj.hashes(key))] for key in keys]
-    elif kind in ("ebf", "rbf"):
-        est, fpr = rnd.choice([(8, 0.05), (20, 0.05), (13, 0.01), (30, 0.1)])
-        qmax = rnd.randint(2, 5)
-        if kind == "ebf":
-            obj = P.ExpandingBloomFilter(est_elements=est, false_positive_rate=fpr, hash_function=hf)
-        else:
-            obj = P.RotatingBloomFilter(est_elements=est, false_positive_rate=fpr, max_queue_size=qmax, hash_function=hf)
-        probe = P.BloomFilter(est_elements=est, false_positive_rate=fpr, hash_function=hf)
-        m, k = probe.number_bits, probe.number_hashes
-        tr.update(m=m, k=k, est=est, qmax=qmax)
-        tr["pos"] = [[h % m for h in probe.hashes(key)] for key in keys]
-    else:
-        q = rnd.choice([3, 4, 5, 6, 8])
-        auto = rnd.random() < 0.7
-        obj = P.QuotientFilter(quotient=q, auto_expand=auto)
-        tr.update(q=q, auto=auto)
-        tr["pos"] = [[fnv_1a_32(key, 0) >> 16, fnv_1a_32(key, 0) & 0xFFFF] for key in keys]
-    out = [0] * nkeys
+            q, auto = self.cfg if big else (rnd.choice([3, 4, 5, 6, 7, 8]), rnd.random() < 0.6)
+            self.obj = P.QuotientFilter(quotient=q, auto_expand=auto)
+            tr.update(q=q, auto=auto)
+            self.nkeys = (7000 if auto else (1 << q) - 6) if big else rnd.randint(30, 400)
+            self.posfn = lambda key: [fnv_1a_32(key, 0) >> 16, fnv_1a_32(key, 0) & 0xFFFF]
+        self.keys = mkkeys(rnd, self.nkeys, str(tr["id"]))
+        tr["pos"] = [self.posfn(k) for k in self.keys]
+        self.out = {}
 
-    def observe_full():
+    # -- observation -----------------------------------------------------------------------------
+    def full(self, obj=None):
+        obj = obj or self.obj
+        kind, tr = self.kind, self.tr
         if kind in ("bloom", "disk"):
             return bits_of(bytes(obj), tr["m"])
         if kind == "cbloom":
@@ -93,114 +158,389 @@ def record_one(rnd, kind, ti, nev, tmp):
                 res.append({"n": struct.unpack("Q", data[off:off + 8])[0], "bits": bits_of(data[off + 8:off + 8 + blen], tr["m"])})
                 off += 8 + blen
             return res
+        if kind in ("cko", "ccko"):
+            return []
         return [[h >> 16, h & 0xFFFF] for h in obj.get_hashes()]
 
-    def aux():
+    def aux(self, lost=0):
+        kind, obj = self.kind, self.obj
+        a = dict(NOAUX, lost=lost)
         if kind in ("ebf", "rbf"):
-            return {"ns": [b["n"] for b in observe_full()], "q": 0}
-        if kind == "qf":
-            return {"ns": [], "q": obj.quotient}
-        return {"ns": [], "q": 0}
+            data = bytes(obj)
+            size = struct.unpack("Q", data[-28:-20])[0]
+            blen = (self.tr["m"] + 7) // 8
+            a["ns"] = [struct.unpack("Q", data[i * (8 + blen): i * (8 + blen) + 8])[0] for i in range(size)]
+        elif kind == "qf":
+            a["q"] = obj.quotient
+        elif kind == "ccko":
+            a["uniq"] = obj.unique_elements
+        return a
 
-    for step in range(nev):
-        i = rnd.randrange(nkeys)
-        key = keys[i]
-        ev = {"op": "add", "k": i + 1, "a": 1, "ret": 0}
-        r = rnd.random()
+    def probes(self, idxs):
+        return [[j + 1, int(self.obj.check(self.keys[j]))] for j in idxs]
+
+    def emit(self, op, ks, a=0, ret=0, probe_idx=(), full=False, lost=0):
+        ev = {"op": op, "ks": [[k + 1, amt] for k, amt in ks], "a": a, "ret": int(ret or 0), "n": self.obj.elements_added,
+              "probes": self.probes(probe_idx), "full": self.full() if full else [], "aux": self.aux(lost)}
+        self.tr["ev"].append(ev)
+        return ev
+
+    def hcheck(self, cond, clause, **detail):
+        if not cond:
+            self.hfails.append((clause, detail))
+        self.tr.setdefault("hchecks", {}).setdefault(clause, 0)
+        self.tr["hchecks"][clause] += 1
+
+    # -- harness-level, oracle-free clauses at scale ----------------------------------------------
+    def roundtrip(self):
+        """C05 at scale: every channel carries the same payload; the loaded object answers, counts and re-exports alike."""
+        P, kind, obj, hf = self.P, self.kind, self.obj, self.hf
+        sample = self.rnd.sample(range(self.nkeys), min(300, self.nkeys))
+        want = [obj.check(self.keys[j]) for j in sample]
+        data = bytes(obj)
+        path = self.path + ".rt"
+        loads = []
         try:
-            if kind in ("bloom", "disk"):
-                if r < 0.02:
-                    ev.update(op="clear", k=0)
-                    obj.clear()
-                    out = [0] * nkeys
-                elif r < 0.07:
-                    ev.update(op="rt", k=0)
-                    if kind == "disk":
-                        obj.close()
-                        obj = P.BloomFilterOnDisk(path, hash_function=hf)
-                    else:
-                        ch = rnd.choice(["bytes", "hex", "file"])
-                        if ch == "bytes":
-                            obj = P.BloomFilter.frombytes(bytes(obj), hash_function=hf)
-                        elif ch == "hex":
-                            obj = P.BloomFilter(hex_string=obj.export_hex(), hash_function=hf)
-                        else:
-                            obj.export(path + ".x")
-                            obj = P.BloomFilter(filepath=path + ".x", hash_function=hf)
-                else:
-                    obj.add(key)
-                    out[i] += 1
-            elif kind in ("cbloom", "cms"):
-                a = rnd.choice([1, 1, 2, 3, 7])
-                if r < 0.3 and out[i] > 0:
-                    a = rnd.randint(1, out[i])
-                    ev.update(op="rem", a=a)
-                    ev["ret"] = obj.remove(key, a)
-                    out[i] -= a
-                elif r < 0.33:
-                    ev.update(op="rt", k=0)
-                    obj = type(obj).frombytes(bytes(obj), hash_function=hf)
-                else:
-                    ev.update(op="add", a=a)
-                    ev["ret"] = obj.add(key, a)
-                    out[i] += a
-            elif kind in ("ebf", "rbf"):
-                if r < 0.02:
-                    ev.update(op="push", k=0)
-                    obj.push()
-                elif r < 0.04 and kind == "rbf" and obj.current_queue_size > 1:
-                    ev.update(op="pop", k=0)
-                    obj.pop()
-                elif r < 0.08:
-                    ev.update(op="rt", k=0)
-                    if kind == "ebf":
-                        obj = P.ExpandingBloomFilter.frombytes(bytes(obj), hash_function=hf)
-                    else:
-                        obj = P.RotatingBloomFilter.frombytes(bytes(obj), max_queue_size=tr["qmax"], hash_function=hf)
-                else:
-                    force = rnd.random() < 0.1
-                    ev.update(op="add", a=1 if force else 0)
-                    obj.add(key, force)
+            if kind == "disk":
+                obj.export(path)
+                self.hcheck(open(path, "rb").read() == data, "C05.channels_agree.scale", kind=kind)
+                loads = [("ondisk_open", lambda: P.BloomFilterOnDisk(path, hash_function=hf)), ("inmemory_from_file", lambda: P.BloomFilter(filepath=path, hash_function=hf))]
             else:
-                if r < 0.25:
-                    ev.update(op="rem")
-                    obj.remove(key)
-                elif r < 0.28:
-                    nq = rnd.randint(3, 10)
-                    if obj.elements_added < (1 << nq) * 0.8:
-                        ev.update(op="rsz", k=0, a=nq)
-                        obj.resize(nq)
-                    else:
-                        ev.update(op="noop", k=0)
-                elif not tr["auto"] and obj.elements_added >= obj.num_elements - 1:
-                    ev.update(op="rem")
-                    obj.remove(key)
-                else:
-                    obj.add(key)
+                obj.export(path)
+                bio = io.BytesIO()
+                obj.export(bio)
+                self.hcheck(open(path, "rb").read() == data == bio.getvalue(), "C05.channels_agree.scale", kind=kind)
+                cls = type(obj)
+                if kind in ("bloom", "cbloom"):
+                    hx = obj.export_hex()
+                    loads = [("frombytes", lambda: cls.frombytes(data, hash_function=hf)), ("filepath", lambda: cls(filepath=path, hash_function=hf)),
+                             ("hex", lambda: cls(hex_string=hx, hash_function=hf))]
+                elif kind == "cms":
+                    loads = [("frombytes", lambda: cls.frombytes(data, hash_function=hf)), ("filepath", lambda: cls(filepath=path, hash_function=hf))]
+                elif kind == "ebf":
+                    loads = [("frombytes", lambda: cls.frombytes(data, hash_function=hf)), ("filepath", lambda: cls(filepath=path, hash_function=hf))]
+                elif kind == "rbf":
+                    loads = [("frombytes", lambda: cls.frombytes(data, max_queue_size=self.tr["qmax"], hash_function=hf))]
+                elif kind in ("cko", "ccko"):
+                    loads = [("frombytes", lambda: cls.frombytes(data)), ("filepath", lambda: cls(filepath=path))]
+            for name, mk in loads:
+                g = mk()
+                if kind in ("cko", "ccko"):
+                    g.fingerprint_size = self.fs
+                got = [g.check(self.keys[j]) for j in sample]
+                self.hcheck(got == want, "C05.queries.scale", kind=kind, channel=name, differing=sum(1 for a, b in zip(got, want) if a != b))
+                self.hcheck(g.elements_added == obj.elements_added, "C05.geometry.scale", kind=kind, channel=name, loaded=g.elements_added, original=obj.elements_added)
+                self.hcheck(g.elements_added == obj.elements_added, "C14.count.reload.scale", kind=kind, channel=name, loaded=g.elements_added, original=obj.elements_added)
+                self.hcheck(bytes(g) == data, "C05.reexport.scale", kind=kind, channel=name)
+                if kind in ("cko", "ccko"):
+                    self.table_invariants(g, "C15.loaded_table.scale")
+                if name == "ondisk_open":
+                    g.close()
         except Exception as exc:  # noqa
-            ev["raised"] = repr(exc)
-            tr["ev"].append(dict(ev, n=0, probes=[], full=[], aux={"ns": [], "q": 0}))
-            break
-        ev["ret"] = int(ev["ret"] or 0)
-        ev["n"] = obj.elements_added
-        idxs = [i] + [rnd.randrange(nkeys) for _ in range(3)]
-        ev["probes"] = [[j + 1, int(obj.check(keys[j]))] for j in idxs]
-        ev["full"] = observe_full() if (step % 23 == 22 or step == nev - 1) else []
-        ev["aux"] = aux()
-        tr["ev"].append(ev)
-    if kind == "disk":
-        obj.close()
-    return tr
+            self.hcheck(False, "C05.load_raises.scale", kind=kind, raised=repr(exc))
+
+    def stats(self):
+        """C14 statistics at scale: estimate_elements / current rate from an independent bit count and 50-digit arithmetic."""
+        obj = self.obj
+        getcontext().prec = 50
+        m, k = obj.number_bits, obj.number_hashes
+        X = len(self.full()) if self.kind != "cbloom" else sum(1 for c in obj.bloom if c)
+        est = obj.estimate_elements()
+        if X >= m:
+            self.hcheck(est == -1, "C14.estimate_full.scale")
+        else:
+            exact = -(Decimal(m) / Decimal(k)) * (Decimal(1) - Decimal(X) / Decimal(m)).ln()
+            if abs(exact - exact.to_integral_value()) > Decimal("1e-6"):
+                self.hcheck(est == int(exact), "C14.estimate_formula.scale", kind=self.kind, bits=m, set_bits=X, estimate=est, exact=str(exact)[:30])
+        n = obj.elements_added
+        exact = (Decimal(1) - (Decimal(-k * n) / Decimal(m)).exp()) ** k
+        self.hcheck(abs(Decimal(obj.current_false_positive_rate()) - exact) <= Decimal("1e-12") + exact * Decimal("1e-9"), "C14.current_fpr_formula.scale", kind=self.kind)
+
+    def table_invariants(self, f, clause):
+        from probables.hashes import fnv_1a
+
+        cap, bs = f.capacity, f.bucket_size
+        bk = f.buckets
+        ok = len(bk) == cap and all(len(b) <= bs for b in bk)
+        fps = []
+        for i, b in enumerate(bk):
+            for e in b:
+                fp, cnt = (e.finger, e.count) if self.kind == "ccko" else (e, 1)
+                fps.append(fp)
+                if i not in (fp % cap, fnv_1a(str(fp)) % cap) or cnt < 1:
+                    ok = False
+        ok = ok and len(fps) == len(set(fps))
+        self.hcheck(ok, clause, kind=self.kind, capacity=cap)
+
+    def disk_file(self, adds):
+        """C11 at scale: the backing file is a well-formed, current export, identical to an in-memory filter's"""
+        data = open(self.path, "rb").read()
+        blen = (self.tr["m"] + 7) // 8
+        self.hcheck(len(data) == blen + 20, "C11.wellformed.scale", file_bytes=len(data), expected=blen + 20)
+        if len(data) >= 20:
+            est, cnt = struct.unpack("QQ", data[-20:-4])
+            self.hcheck(est == self.tr["est"] and cnt == adds, "C11.count_current.scale", footer=(est, cnt), completed_adds=adds)
+
+    # -- drivers ---------------------------------------------------------------------------------
+    def run_long(self, nev):
+        P, rnd, kind, keys, nkeys = self.P, self.rnd, self.kind, self.keys, self.nkeys
+        out = self.out
+        for step in range(nev):
+            i = rnd.randrange(nkeys)
+            key = keys[i]
+            r = rnd.random()
+            full = step % 23 == 22 or step == nev - 1
+            pi = [i] + [rnd.randrange(nkeys) for _ in range(3)]
+            try:
+                if kind in ("bloom", "disk"):
+                    if r < 0.02:
+                        self.obj.clear()
+                        out.clear()
+                        self.emit("clear", [], probe_idx=pi, full=full)
+                    elif r < 0.07:
+                        self.reload()
+                        self.emit("rt", [], probe_idx=pi, full=full)
+                    elif r < 0.10:
+                        self.union(pi)
+                    else:
+                        self.obj.add(key)
+                        out[i] = out.get(i, 0) + 1
+                        self.emit("add", [(i, 1)], probe_idx=pi, full=full)
+                elif kind in ("cbloom", "cms"):
+                    a = rnd.choice([1, 1, 2, 3, 7])
+                    if r < 0.3 and out.get(i, 0) > 0:
+                        a = rnd.randint(1, out[i])
+                        ret = self.obj.remove(key, a)
+                        out[i] -= a
+                        self.emit("rem", [(i, a)], ret=ret, probe_idx=pi, full=full)
+                    elif r < 0.33:
+                        self.reload()
+                        self.emit("rt", [], probe_idx=pi, full=full)
+                    else:
+                        ret = self.obj.add(key, a)
+                        out[i] = out.get(i, 0) + a
+                        self.emit("add", [(i, a)], ret=ret, probe_idx=pi, full=full)
+                elif kind in ("ebf", "rbf"):
+                    if r < 0.02:
+                        self.obj.push()
+                        self.emit("push", [], probe_idx=pi, full=full)
+                    elif r < 0.04 and kind == "rbf" and self.obj.current_queue_size > 1:
+                        self.obj.pop()
+                        self.emit("pop", [], probe_idx=pi, full=full)
+                    elif r < 0.08:
+                        self.reload()
+                        self.emit("rt", [], probe_idx=pi, full=full)
+                    else:
+                        force = 1 if rnd.random() < 0.1 else 0
+                        self.obj.add(key, bool(force))
+                        self.emit("add", [(i, force)], probe_idx=pi, full=full)
+                elif kind in ("cko", "ccko"):
+                    self.cuckoo_step(i, r, pi)
+                else:
+                    if r < 0.25:
+                        self.obj.remove(key)
+                        self.emit("rem", [(i, 1)], probe_idx=pi, full=full)
+                    elif r < 0.28:
+                        nq = rnd.randint(3, 10)
+                        if self.obj.elements_added < (1 << nq) * 0.8:
+                            self.obj.resize(nq)
+                            self.emit("rsz", [], a=nq, probe_idx=pi, full=full)
+                    elif not self.tr["auto"] and self.obj.elements_added >= self.obj.num_elements - 1:
+                        self.obj.remove(key)
+                        self.emit("rem", [(i, 1)], probe_idx=pi, full=full)
+                    else:
+                        self.obj.add(key)
+                        self.emit("add", [(i, 1)], probe_idx=pi, full=full)
+            except Exception as exc:  # noqa
+                self.tr["raised"] = repr(exc)
+                break
+        self.finish()
+
+    def cuckoo_step(self, i, r, pi):
+        from probables.exceptions import CuckooFilterFullError
+
+        key = self.keys[i]
+        if r < 0.2:
+            self.obj.remove(key)
+            self.emit("rem", [(i, 1)], probe_idx=pi)
+        elif r < 0.23:
+            self.reload()
+            self.emit("rt", [], probe_idx=pi)
+        else:
+            watch = self.rnd.sample(range(self.nkeys), min(60, self.nkeys))
+            before = [bool(self.obj.check(self.keys[j])) for j in watch]
+            try:
+                self.obj.add(key)
+                self.emit("add", [(i, 1)], probe_idx=pi)
+            except CuckooFilterFullError:
+                after = [bool(self.obj.check(self.keys[j])) for j in watch]
+                lost = sum(1 for a, b in zip(before, after) if a and not b)
+                self.emit("addfail", [(i, 1)], probe_idx=[], lost=lost)
+
+    def reload(self):
+        P, kind, hf, obj = self.P, self.kind, self.hf, self.obj
+        if kind == "disk":
+            obj.close()
+            self.obj = P.BloomFilterOnDisk(self.path, hash_function=hf)
+        elif kind == "rbf":
+            self.obj = P.RotatingBloomFilter.frombytes(bytes(obj), max_queue_size=self.tr["qmax"], hash_function=hf)
+        elif kind in ("cko", "ccko"):
+            g = type(obj).frombytes(bytes(obj))
+            g.fingerprint_size = self.fs
+            g.auto_expand = obj.auto_expand
+            self.obj = g
+        else:
+            ch = self.rnd.choice(["bytes", "file"] + (["hex"] if kind in ("bloom", "cbloom") else []))
+            cls = type(obj)
+            if ch == "bytes":
+                self.obj = cls.frombytes(bytes(obj), hash_function=hf)
+            elif ch == "hex":
+                self.obj = cls(hex_string=obj.export_hex(), hash_function=hf)
+            else:
+                obj.export(self.path + ".x")
+                self.obj = cls(filepath=self.path + ".x", hash_function=hf)
+
+    def union(self, pi, batch=None):
+        """a second filter (in-memory or on-disk) holding some keys is united with this one, in either order"""
+        P, rnd = self.P, self.rnd
+        ks = batch if batch is not None else [rnd.randrange(self.nkeys) for _ in range(rnd.randint(1, 6))]
+        second_disk = rnd.random() < 0.4
+        p2 = self.path + ".second"
+        B = P.BloomFilterOnDisk(p2, **self.args) if second_disk else P.BloomFilter(**self.args)
+        for j in ks:
+            B.add(self.keys[j])
+        res = self.obj.union(B) if rnd.random() < 0.5 else B.union(self.obj)
+        if second_disk:
+            B.close()
+        if res is None:
+            self.hcheck(False, "C13.compatible_not_none.scale")
+            return
+        ev = {"op": "union", "ks": [[j + 1, 1] for j in ks], "a": 0, "ret": 0, "n": 0,
+              "probes": [[j + 1, int(res.check(self.keys[j]))] for j in list(pi) + list(ks[:40])], "full": self.full(res), "aux": dict(NOAUX)}
+        self.tr["ev"].append(ev)
+
+    def run_big(self):
+        """batched additions on a structure whose arrays / tables cross block-size marks"""
+        rnd, kind, keys, nkeys = self.rnd, self.kind, self.keys, self.nkeys
+        order = list(range(nkeys))
+        rnd.shuffle(order)
+        nb = 12
+        size = (nkeys + nb - 1) // nb
+        done = []
+        adds = 0
+        try:
+            for b in range(nb):
+                batch = order[b * size:(b + 1) * size]
+                if not batch:
+                    break
+                if kind in ("cko", "ccko"):
+                    self.big_cuckoo_batch(batch, done)
+                    continue
+                amounts = []
+                for j in batch:
+                    a = 1
+                    if kind in ("cbloom", "cms"):
+                        a = rnd.choice([1, 1, 2, 5])
+                        self.obj.add(keys[j], a)
+                    elif kind in ("ebf", "rbf"):
+                        a = 0
+                        self.obj.add(keys[j])
+                    else:
+                        self.obj.add(keys[j])
+                    amounts.append((j, a))
+                    adds += 1
+                done += batch
+                pi = rnd.sample(batch, min(25, len(batch))) + rnd.sample(done, min(25, len(done))) + rnd.sample(order, 10)
+                self.emit("add", amounts, probe_idx=pi, full=(b in (3, nb - 1)))
+                if kind == "disk":
+                    self.disk_file(adds)
+                if kind in ("bloom", "disk") and b in (2, 7):
+                    self.union(rnd.sample(done, 20), batch=rnd.sample(order, min(400, nkeys)))
+                if b in (4, 9) and kind != "qf":
+                    self.roundtrip()
+                    self.reload()
+                    self.emit("rt", [], probe_idx=rnd.sample(done, min(40, len(done))))
+                if kind in ("bloom", "disk", "cbloom") and b in (5, nb - 1):
+                    self.stats()
+                if kind in ("cbloom", "cms") and b == 6:
+                    rem = sorted(set(rnd.sample(done, min(200, len(done)))))   # each was added with amount >= 1: removing 1 is legitimate
+                    for j in rem:
+                        self.obj.remove(keys[j], 1)
+                    self.emit("rem", [(j, 1) for j in rem], probe_idx=rnd.sample(order, 30), full=True)
+                if kind == "qf" and b in (5, 8):
+                    self.emit("noop", [], probe_idx=rnd.sample(order, 60), full=True)
+            if kind == "qf":      # removals under high load: first the oldest half in two batches, then a scattered quarter
+                parts = [done[: len(done) // 4], done[len(done) // 4: len(done) // 2], rnd.sample(done[len(done) // 2:], len(done) // 8)]
+                if not self.tr["auto"]:   # small dense table: many small removal steps, each followed by a full comparison
+                    parts = [done[i::8] for i in range(6)]
+                for part in parts:
+                    for j in part:
+                        self.obj.remove(keys[j])
+                    self.emit("rem", [(j, 1) for j in part], probe_idx=rnd.sample(order, min(300, nkeys)), full=True)
+        except Exception as exc:  # noqa
+            self.tr["raised"] = repr(exc)
+        self.finish()
+
+    def big_cuckoo_batch(self, batch, done):
+        from probables.exceptions import CuckooFilterFullError
+
+        rnd, keys = self.rnd, self.keys
+        ok = []
+        for j in batch:
+            watch = None
+            load = self.obj.load_factor()
+            if load > 0.9 and not self.obj.auto_expand:
+                watch = rnd.sample(done, min(80, len(done))) if done else []
+                before = [bool(self.obj.check(keys[x])) for x in watch]
+            try:
+                cap0 = self.obj.capacity
+                self.obj.add(keys[j])
+                ok.append((j, 1))
+                done.append(j)
+                if self.obj.capacity != cap0:   # this add expanded the table: the key that triggered it and its predecessors must be there
+                    self.emit("add", ok, probe_idx=[j] + [x for x, _ in ok[-30:]] + rnd.sample(done, min(60, len(done))))
+                    ok = []
+            except CuckooFilterFullError:
+                if ok:
+                    self.emit("add", ok, probe_idx=rnd.sample(done, min(40, len(done))))
+                    ok = []
+                after = [bool(self.obj.check(keys[x])) for x in (watch or [])]
+                lost = sum(1 for a, b in zip(before, after) if a and not b) if watch is not None else 0
+                self.emit("addfail", [(j, 1)], lost=lost)
+        if ok:
+            self.emit("add", ok, probe_idx=rnd.sample(done, min(60, len(done))) + rnd.sample(batch, min(20, len(batch))))
+        self.table_invariants(self.obj, "C15.table.scale")
+        if rnd.random() < 0.35:
+            self.roundtrip()
+            self.reload()
+            self.emit("rt", [], probe_idx=rnd.sample(done, min(60, len(done))))
+
+    def finish(self):
+        if self.kind == "disk":
+            try:
+                self.obj.close()
+                mem = self.P.BloomFilter(**self.args)
+                for ev in self.tr["ev"]:
+                    if ev["op"] == "add":
+                        for k, _ in ev["ks"]:
+                            mem.add(self.keys[k - 1])
+                    elif ev["op"] == "clear":
+                        mem.clear()
+                self.hcheck(open(self.path, "rb").read() == bytes(mem), "C11.close_equals_inmemory.scale", bits=self.tr["m"])
+            except Exception as exc:  # noqa
+                self.hcheck(False, "C11.close_raises.scale", raised=repr(exc))
+        if self.kind in ("cko", "ccko"):
+            self.table_invariants(self.obj, "C15.table.scale")
 
 
 CFG = "INIT Init\nNEXT Next\nCHECK_DEADLOCK FALSE\n"
 
 
-def validate(traces, timeout=1800):
+def validate(traces, timeout=2400):
     slim = []
     for tr in traces:
-        t2 = {k: v for k, v in tr.items() if k != "ev"}
-        t2["ev"] = [{k: e[k] for k in ("op", "k", "a", "ret", "n", "probes", "full", "aux")} for e in tr["ev"] if not e.get("raised")]
+        t2 = {k: tr[k] for k in ("id", "kind", "m", "k", "w", "d", "est", "qmax", "q", "auto", "pos")}
+        t2["ev"] = [{k: e[k] for k in ("op", "ks", "a", "ret", "n", "probes", "full", "aux")} for e in tr["ev"]]
         slim.append(t2)
     verdicts = {}
 
@@ -208,32 +548,73 @@ def validate(traces, timeout=1800):
         if isinstance(j, dict) and "verdict" in j:
             verdicts[j["verdict"]] = j["fails"]
 
-    r = tlc.run_tlc("TraceScale", CFG, workers=1, timeout=timeout, on_json=on_json, files={"traces.json": json.dumps(slim)}, heap="6g")
+    r = tlc.run_tlc("TraceScale", CFG, workers=1, timeout=timeout, on_json=on_json, files={"traces.json": json.dumps(slim)}, heap="8g", stack="512m")
     if len(verdicts) != len(traces):
         raise tlc.MachineryError(f"TraceScale: {len(verdicts)} verdicts for {len(traces)} traces\n" + "\n".join(r.tail[-25:]))
     return verdicts, r
 
 
+def _record(args):
+    seed, kind, ti, big, nev = args[:5]
+    cfg = args[5] if len(args) > 5 else None
+    import sys
+
+    from ..core import REPO  # noqa  (sets sys.path)
+
+    rnd = _random.Random(seed * 100003 + ti * 131 + (7 if big else 0))
+    _random.seed(seed * 7919 + ti)   # the cuckoo filters draw from the global generator: keep runs reproducible
+    tmp = tempfile.mkdtemp(prefix="scale-", dir=tlc.scratch_root())
+    try:
+        rec = Rec(rnd, kind, ti, tmp, big, cfg)
+        rec.run_big() if big else rec.run_long(nev)
+        return rec.tr, rec.hfails
+    finally:
+        shutil.rmtree(tmp, ignore_errors=True)
+
+
+HPROP = {"C05": "C05", "C11": "C11", "C13": "C13", "C14": "C14", "C15": "C15"}
+
+
 def run(focus, tier, seed):
+    import multiprocessing
+    from concurrent.futures import ProcessPoolExecutor, ThreadPoolExecutor
+
     total = Tally(focus)
     kinds = SERVES.get(focus, KINDS)
-    per_kind, nev, nb = (3, 120, 7) if tier == "quick" else (40, 300, 14)
-    if focus == "C14" and tier == "quick":
-        per_kind = 2
-    rnd = _random.Random(seed + 9001)
-    tmp = tempfile.mkdtemp(prefix="scale-", dir=tlc.scratch_root())
-    traces = []
+    n_long, nev, n_big = (2, 120, 1) if tier == "quick" else (25, 300, 6)
+    if tier == "quick" and len(kinds) > 5:
+        n_long = 1
+    jobs = []
     for kind in kinds:
-        for _ in range(per_kind):
-            traces.append(record_one(rnd, kind, len(traces), nev, tmp))
-    shutil.rmtree(tmp, ignore_errors=True)
-    import concurrent.futures as cf
-
-    nb = min(nb, len(traces))
-    chunks = [traces[i::nb] for i in range(nb)]
-    with cf.ThreadPoolExecutor(max_workers=nb) as ex:
+        if focus not in ("C05", "C11", "C12", "C15"):
+            for _ in range(n_long):
+                jobs.append((seed, kind, len(jobs), False, nev))
+        cfgs = BIG[kind]
+        if tier == "quick":   # few kinds in focus: every big configuration; many kinds: the first (threshold-critical) ones
+            cfgs = cfgs if len(kinds) <= 3 else cfgs[:2] if kind in ("cko", "ccko", "bloom", "qf") else cfgs[:1]
+        for cfg in cfgs:
+            jobs.append((seed, kind, len(jobs), True, 0, cfg))
+    with ProcessPoolExecutor(max_workers=min(14, len(jobs)), mp_context=multiprocessing.get_context("forkserver")) as ex:
+        recs = list(ex.map(_record, jobs))
+    traces = [r[0] for r in recs]
+    nb = min(14, len(traces))
+    # balance: big traces first, round-robin
+    order = sorted(traces, key=lambda t: -sum(len(e["ks"]) + len(e["full"]) for e in t["ev"]))
+    chunks = [order[i::nb] for i in range(nb)]
+    with ThreadPoolExecutor(max_workers=nb) as ex:
         results = list(ex.map(validate, chunks))
     bytr = {tr["id"]: tr for tr in traces}
+    for tr, hfails in recs:
+        for clause, n in tr.get("hchecks", {}).items():
+            total.ok(clause.split(".")[0], clause, n)
+        for clause, detail in hfails:
+            total.fail(clause.split(".")[0], clause, ENGINE, {"kind": tr["kind"], "big": tr["big"], "config": {k: tr[k] for k in ("m", "k", "w", "d", "est", "qmax", "q", "auto")}, "detail": detail},
+                       {"kind": tr["kind"], "big": tr["big"]})
+        if tr.get("raised"):
+            prop = {"qf": "C04", "cms": "C02", "cbloom": "C08", "ebf": "C09", "rbf": "C10", "cko": "C03", "ccko": "C03", "disk": "C11"}.get(tr["kind"], "C01")
+            for pr in {prop, focus} & set(SERVES) if focus in SERVES and tr["kind"] in SERVES[focus] else {prop}:
+                total.fail(pr, f"{pr}.call_raises.scale", ENGINE, {"kind": tr["kind"], "big": tr["big"], "raised": tr["raised"], "events_before": len(tr["ev"]),
+                                                                  "config": {k: tr[k] for k in ("m", "k", "w", "d", "est", "qmax", "q", "auto")}}, {"kind": tr["kind"], "big": tr["big"]})
     for verdicts, r in results:
         d = r.as_dict()
         d.update(spec="TraceScale", mode="trace-validation")
@@ -241,26 +622,26 @@ def run(focus, tier, seed):
         for tid, fails in verdicts.items():
             tr = bytr[tid]
             total.c2s += 1
-            total.evaluations += len(tr["ev"])
-            for e in tr["ev"]:
-                if e.get("raised"):
-                    prop = {"qf": "C04", "cms": "C02", "cbloom": "C08", "ebf": "C09", "rbf": "C10"}.get(tr["kind"], "C01")
-                    total.fail(prop, f"{prop}.call_raises.scale", ENGINE, {"kind": tr["kind"], "raised": e["raised"], "events": len(tr["ev"])}, {"kind": tr["kind"]})
-            grow = sum(1 for a, b in zip(tr["ev"], tr["ev"][1:]) if (a.get("aux", {}).get("q"), len(a.get("aux", {}).get("ns", []))) != (b.get("aux", {}).get("q"), len(b.get("aux", {}).get("ns", []))))
-            total.nontriv(hash((tid, tr["kind"], grow, len(tr["ev"]))))
+            total.evaluations += sum(max(1, len(e["ks"])) for e in tr["ev"])
+            total.nontriv(hash((tid, tr["kind"], tr["big"], len(tr["ev"]))))
             for clause, idx in fails:
                 if clause.startswith("DRIFT"):
-                    total.add_drift(ENGINE, {"trace": tid, "kind": tr["kind"], "clause": clause, "event": idx})
+                    total.add_drift(ENGINE, {"trace": tid, "kind": tr["kind"], "big": tr["big"], "clause": clause, "event": idx})
                     continue
                 prop = clause.split(".")[0]
-                total.fail(prop, clause + ".scale", ENGINE, {"kind": tr["kind"], "config": {k: tr[k] for k in ("m", "k", "w", "d", "est", "qmax", "q", "auto")},
-                                                             "event_index": idx, "events": [{k: e.get(k) for k in ("op", "k", "a", "ret", "n", "probes")} for e in tr["ev"][max(0, idx - 6):idx]]},
-                           {"kind": tr["kind"]})
-            for prop, cl in (("C01", "C01.present"), ("C02", "C02.bounds"), ("C04", "C04.member"), ("C08", "C08.cb_lower"), ("C09", "C09.cap"), ("C10", "C10.window"), ("C14", "C14.count")):
+                e = tr["ev"][idx - 1]
+                total.fail(prop, clause + ".scale", ENGINE, {"kind": tr["kind"], "big": tr["big"], "config": {k: tr[k] for k in ("m", "k", "w", "d", "est", "qmax", "q", "auto")},
+                                                             "event_index": idx, "event": {"op": e["op"], "keys_in_batch": len(e["ks"]), "n": e["n"], "probes": e["probes"][:12], "aux": e["aux"]}},
+                           {"kind": tr["kind"], "big": tr["big"]})
+            for prop, cl in (("C01", "C01.present"), ("C02", "C02.bounds"), ("C03", "C03.kept"), ("C04", "C04.member"), ("C08", "C08.cb_lower"), ("C09", "C09.cap"),
+                             ("C10", "C10.window"), ("C12", "C12.cells"), ("C14", "C14.count")):
                 total.ok(prop, cl + ".scale", len(tr["ev"]))
-    total.sample({"kind": traces[0]["kind"], "config": {k: traces[0][k] for k in ("m", "k", "w", "d", "est", "qmax", "q", "auto")}, "keys": len(traces[0]["pos"]),
-                  "events": [{k: e.get(k) for k in ("op", "k", "a", "n")} for e in traces[0]["ev"][:6]]})
-    total.rules.append("Scale: seeded long histories (120-300 events, 40-160 real text/bytes keys, default FNV-1a or md5) on realistically sized structures incl. reloads, "
-                       "growth, rotation and automatic resizes, validated by TLC against a sparse abstract state; non-trivial = one trace (each has collisions and growth events)")
+    t0 = traces[0]
+    total.sample({"kind": t0["kind"], "big": t0["big"], "config": {k: t0[k] for k in ("m", "k", "w", "d", "est", "qmax", "q", "auto")}, "keys": len(t0["pos"]),
+                  "events": [{"op": e["op"], "batch": len(e["ks"]), "n": e["n"]} for e in t0["ev"][:6]]})
+    total.extra["scale_traces"] = [{"kind": t["kind"], "big": t["big"], "cells": t["m"] if t["kind"] != "cms" else t["w"] * t["d"], "keys": len(t["pos"]), "events": len(t["ev"])} for t in traces]
+    total.rules.append("Scale: seeded histories with real text/bytes keys and the library's hash functions: 'long' traces (120-300 single calls on 100-5000 cells) and 'big' traces "
+                       "(batched additions of thousands of keys on arrays/tables crossing the 4 KiB, 8 KiB, 64 KiB, 1024-bucket, 65536-slot marks, with reloads, unions, growth, "
+                       "nearly full tables), validated by TLC against a sparse abstract state; non-trivial = one trace (each has collisions and growth events)")
     total.exhaustive = False
     return total
